@@ -19,8 +19,11 @@ use futures_util::FutureExt as _;
 use std::cell::RefCell;
 use std::rc::Rc;
 use yash_env::option::{Option as ShellOption, State};
+use yash_env::job::Pid;
 use yash_env::semantics::ExitStatus;
-use yash_env::semantics::expansion::attr::{AttrChar, Origin};
+use yash_env::semantics::expansion::attr::{AttrChar, AttrField, Origin};
+use yash_env::semantics::expansion::attr_strip::Strip as _;
+use yash_env::semantics::expansion::quote_removal::remove_quotes;
 use yash_env::semantics::expansion::split::{Class, Ifs};
 use yash_env::source::Location;
 use yash_env::system::r#virtual::FileBody;
@@ -28,6 +31,7 @@ use yash_env::variable::{IFS, Scope, Value};
 use yash_semantics::expansion::initial::{Env as InitialEnv, Expand as _, Vacancy};
 use yash_semantics::expansion::{Error as ExpError, ErrorCause};
 use yash_syntax::syntax as sx;
+use yash_syntax::syntax::Unquote as _;
 use yverif::proto::{Opts, dec_str, emit, enc_str, guarded, quiet_panics};
 use yverif::rng::Rng;
 use yverif::shell::{Config, VEnv, run_with};
@@ -54,6 +58,8 @@ enum TU {
 enum WU {
     Unq(TU),
     Sq(String),
+    /// `$'…'`, content already unquoted
+    Dsq(String),
     Dq(Vec<TU>),
 }
 
@@ -91,6 +97,7 @@ fn word_tokens(w: &[WU], out: &mut Vec<String>) {
         match u {
             WU::Unq(t) => tu_tokens(t, out),
             WU::Sq(s) => out.push(format!("S{}", enc_str(s))),
+            WU::Dsq(s) => out.push(format!("Q{}", enc_str(s))),
             WU::Dq(ts) => {
                 out.push("D[".into());
                 for t in ts {
@@ -200,6 +207,10 @@ fn parse_units<'a>(rest: &mut std::slice::Iter<'a, &'a str>) -> Option<Vec<WU>> 
                 rest.next();
                 out.push(WU::Sq(dec_str(&t[1..])?));
             }
+            Some(t) if t.starts_with('Q') => {
+                rest.next();
+                out.push(WU::Dsq(dec_str(&t[1..])?));
+            }
             Some(t) => {
                 rest.next();
                 out.push(WU::Unq(parse_tu(t, rest)?));
@@ -215,6 +226,12 @@ fn parse_word(text: &str) -> Option<Vec<WU>> {
     if it.next().is_some() { None } else { Some(w) }
 }
 
+/// several words separated by the token `;;`
+fn parse_words(text: &str) -> Option<Vec<Vec<WU>>> {
+    let toks: Vec<&str> = text.split_whitespace().collect();
+    toks.split(|t| *t == ";;").map(|ws| parse_word(&ws.join(" "))).collect()
+}
+
 // ------------------------------------------------------------------------------------------
 // rendering to shell source (context-aware) and conversion of the real parser's result
 
@@ -228,13 +245,16 @@ enum Ctx {
     Dq,
     /// word of a switch inside `"${…}"` (text context, delimiter `}`)
     BraceT,
+    /// here-document content
+    Here,
 }
 
 fn lit_ok(c: char, ctx: Ctx) -> bool {
     match c {
         'a'..='z' | 'A'..='Z' | ':' | '*' | '\u{a0}' | '/' | '.' | ',' | '%' | '+' | '-' | '_' | '?' | '0'..='9' => true,
         ' ' => ctx != Ctx::Top,
-        '\'' => matches!(ctx, Ctx::Dq | Ctx::BraceT),
+        '\'' => matches!(ctx, Ctx::Dq | Ctx::BraceT | Ctx::Here),
+        '"' => ctx == Ctx::Here,
         _ => false,
     }
 }
@@ -247,6 +267,7 @@ fn bs_ok(c: char, ctx: Ctx) -> bool {
         Ctx::Top | Ctx::BraceW => true,
         Ctx::Dq => matches!(c, '$' | '`' | '"' | '\\'),
         Ctx::BraceT => matches!(c, '$' | '`' | '"' | '\\' | '}'),
+        Ctx::Here => matches!(c, '$' | '`' | '\\'),
     }
 }
 
@@ -298,14 +319,18 @@ fn render_tus(ts: &[TU], ctx: Ctx, out: &mut String) -> Option<()> {
                 }
             }
             TU::Par { braced: true, p, m } => {
-                // `${#-…}`, `${#?…}`, `${##…}` … are read as the length of `$-`, `$?`, `$#`
-                if p == "#" && !matches!(m, Mo::None) {
-                    return None;
+                // `${#-}`, `${#?}`, `${##}` are read as the length of `$-`, `$?`, `$#`
+                if p == "#" {
+                    match m {
+                        Mo::Sw { colon: false, act: '-' | '?', w } if w.is_empty() => return None,
+                        Mo::Tr { side: '#', long: false, w } if w.is_empty() => return None,
+                        _ => {}
+                    }
                 }
                 out.push_str("${");
                 let wctx = match ctx {
                     Ctx::Top | Ctx::BraceW => Ctx::BraceW,
-                    Ctx::Dq | Ctx::BraceT => Ctx::BraceT,
+                    Ctx::Dq | Ctx::BraceT | Ctx::Here => Ctx::BraceT,
                 };
                 match m {
                     Mo::None => out.push_str(p),
@@ -363,6 +388,24 @@ fn render_wus(w: &[WU], ctx: Ctx, out: &mut String) -> Option<()> {
                 }
                 out.push('\'');
                 out.push_str(s);
+                out.push('\'');
+                i += 1;
+            }
+            WU::Dsq(s) => {
+                if !matches!(ctx, Ctx::Top | Ctx::BraceW) {
+                    return None;
+                }
+                out.push_str("$'");
+                for c in s.chars() {
+                    match c {
+                        '\'' => out.push_str("\\'"),
+                        '\\' => out.push_str("\\\\"),
+                        '\n' => out.push_str("\\n"),
+                        '\t' => out.push_str("\\t"),
+                        c if c.is_control() => return None,
+                        c => out.push(c),
+                    }
+                }
                 out.push('\'');
                 i += 1;
             }
@@ -431,6 +474,7 @@ fn from_word(w: &sx::Word) -> Option<Vec<WU>> {
                 sx::WordUnit::Unquoted(t) => WU::Unq(from_text_unit(t)?),
                 sx::WordUnit::SingleQuote(s) => WU::Sq(s.clone()),
                 sx::WordUnit::DoubleQuote(t) => WU::Dq(t.0.iter().map(from_text_unit).collect::<Option<Vec<_>>>()?),
+                sx::WordUnit::DollarSingleQuote(es) => WU::Dsq(es.unquote().0),
                 _ => return None,
             })
         })
@@ -458,6 +502,12 @@ struct ShState {
     pos: Vec<String>,
     raw: bool,
     n: usize,
+    /// further options in effect, by short name (subset of a C h b v)
+    flags: String,
+    pid: Option<i32>,
+    bg: Option<i32>,
+    ctx: String,
+    portable: bool,
 }
 
 fn parse_list(v: &str) -> Option<Vec<String>> {
@@ -468,7 +518,7 @@ fn parse_list(v: &str) -> Option<Vec<String>> {
 }
 
 fn parse_state(toks: &[&str]) -> Option<ShState> {
-    let mut st = ShState { n: 1, ..Default::default() };
+    let mut st = ShState { n: 1, ctx: "arg".into(), ..Default::default() };
     for t in toks {
         let (k, v) = t.split_once('=')?;
         match k {
@@ -477,6 +527,11 @@ fn parse_state(toks: &[&str]) -> Option<ShState> {
             "raw" => st.raw = v == "1",
             "n" => st.n = v.parse().ok()?,
             "pos" => st.pos = parse_list(v)?,
+            "fl" => st.flags = v.to_string(),
+            "pid" => st.pid = Some(v.parse().ok()?),
+            "bg" => st.bg = Some(v.parse().ok()?),
+            "ctx" => st.ctx = v.to_string(),
+            "portable" => st.portable = v == "1",
             _ => {
                 let (ro, name) = match k.strip_prefix('!') {
                     Some(n) => (true, n),
@@ -513,6 +568,12 @@ fn apply_state(env: &mut VEnv, st: &ShState) {
         }
     }
     env.exit_status = ExitStatus(st.status);
+    if let Some(p) = st.pid {
+        env.main_pid = Pid(p);
+    }
+    if let Some(p) = st.bg {
+        env.jobs.set_last_async_pid(Pid(p));
+    }
 }
 
 fn show_value(v: Option<&Value>) -> String {
@@ -628,77 +689,207 @@ fn config(script: String, st: &ShState) -> Config {
     if st.nounset {
         c.options.push((ShellOption::Unset, State::Off));
     }
+    for f in st.flags.chars() {
+        let o = match f {
+            'a' => (ShellOption::AllExport, State::On),
+            'C' => (ShellOption::Clobber, State::Off),
+            'h' => (ShellOption::HashOnDefinition, State::On),
+            'b' => (ShellOption::Notify, State::On),
+            'v' => (ShellOption::Verbose, State::On),
+            _ => continue,
+        };
+        c.options.push(o);
+    }
     c.positional_params = st.pos.clone();
     c.max_rounds = 10_000;
     c
 }
 
+/// the separator of `"$*"` / of joining in a non-splitting context, written out for the oracle
+fn oracle_join(fields: &[Vec<AttrChar>], env: &VEnv) -> Vec<AttrChar> {
+    let sep: Option<char> = match env.variables.get(IFS).and_then(|v| v.value.as_ref()) {
+        Some(Value::Scalar(s)) => s.chars().next(),
+        Some(Value::Array(a)) => a.first().and_then(|s| s.chars().next()),
+        None => Some(' '),
+    };
+    let mut out = vec![];
+    for (i, f) in fields.iter().enumerate() {
+        if i > 0 {
+            if let Some(c) = sep {
+                out.push(AttrChar { value: c, origin: Origin::SoftExpansion, is_quoted: false, is_quoting: false });
+            }
+        }
+        out.extend(f.iter().copied());
+    }
+    out
+}
+
+/// direct API legs on one expanded field: `Strip for AttrField`/`&AttrField`, `remove_quotes`
+fn strip_api_ok(chars: &[AttrChar]) -> bool {
+    let af = AttrField { chars: chars.to_vec(), origin: Location::dummy("") };
+    let plain: String = chars.iter().map(|c| c.value).collect();
+    let a = (&af).strip().value == plain;
+    let mut v = chars.to_vec();
+    remove_quotes(&mut v);
+    let b = v.iter().map(|c| c.value).collect::<String>() == unquote(chars);
+    let c = af.clone().remove_quotes_and_strip().value == unquote(chars);
+    a && b && c && af.strip().value == plain
+}
+
+fn script_for(ctx: &str, srcs: &[String]) -> Option<String> {
+    Some(match ctx {
+        "arg" => format!("probe {}\n", srcs.join(" ")),
+        "for" => format!("for v in {}; do probe \"$v\"; done\n", srcs.join(" ")),
+        "arr" => format!("v=({})\n", srcs.join(" ")),
+        "asg" if srcs.len() == 1 => format!("v={}\n", srcs[0]),
+        "exp" if srcs.len() == 1 => format!("export v={}\n", srcs[0]),
+        "here" if srcs.len() == 1 => format!("cat <<EOF_\n{}\nEOF_\n", srcs[0]),
+        _ => return None,
+    })
+}
+
 fn run_w(state_toks: &[&str], word_text: &str) -> (String, String) {
-    let (Some(st), Some(word)) = (parse_state(state_toks), parse_word(word_text)) else {
+    let (Some(st), Some(words)) = (parse_state(state_toks), parse_words(word_text)) else {
         return ("bad-case".into(), "-".into());
     };
-    let Some(src) = render(&word) else {
+    let ctx = st.ctx.clone();
+    let single = matches!(ctx.as_str(), "asg" | "exp" | "here");
+    let mut srcs = vec![];
+    for w in &words {
+        let src = if ctx == "here" {
+            // text units only
+            let ts: Option<Vec<TU>> = w.iter().map(|u| if let WU::Unq(t) = u { Some(t.clone()) } else { None }).collect();
+            let mut s = String::new();
+            match ts.and_then(|ts| render_tus(&ts, Ctx::Here, &mut s)) {
+                Some(()) => Some(s),
+                None => None,
+            }
+        } else if w.is_empty() && single {
+            Some(String::new())
+        } else {
+            render(w)
+        };
+        match src {
+            Some(s) => srcs.push(s),
+            None => return ("unrenderable".into(), "-".into()),
+        }
+    }
+    if ctx == "arg" && srcs.is_empty() {
         return ("unrenderable".into(), "-".into());
+    }
+    let Some(script) = script_for(&ctx, &srcs) else {
+        return ("bad-case".into(), "-".into());
     };
     let direct = Rc::new(RefCell::new(Direct::default()));
     let direct2 = Rc::clone(&direct);
     let st2 = st.clone();
-    let src2 = src.clone();
-    let want = word_string(&word);
-    let (outcome, vars) = run_with(
-        config(format!("probe {src}\n"), &st),
+    let srcs2 = srcs.clone();
+    let wants: Vec<String> = words.iter().map(|w| word_string(w)).collect();
+    let ctx2 = ctx.clone();
+    let (outcome, fin) = run_with(
+        config(script, &st),
         move |env, _| {
             apply_state(env, &st2);
             // the oracle works on a clone of the environment (same virtual system, own variables)
             let mut d = direct2.borrow_mut();
-            match parse_probe_arg(&src2) {
-                Err(e) => d.parse = Some(e),
-                Ok(w) => {
-                    let got = from_word(&w).map(|w| word_string(&w)).unwrap_or_else(|| "unsupported".into());
-                    if got != want {
-                        d.parse = Some(got.replace(' ', "_"));
+            let mut env2 = env.clone();
+            let mut fields: Vec<String> = vec![];
+            for (src, want) in srcs2.iter().zip(&wants) {
+                // the real parser's view of the rendered source
+                let parsed: Result<sx::Word, String> = if ctx2 == "here" {
+                    src.parse::<sx::Text>()
+                        .map(|t| sx::Word {
+                            units: t.0.into_iter().map(sx::WordUnit::Unquoted).collect(),
+                            location: Location::dummy(""),
+                        })
+                        .map_err(|_| "syntax-error".to_string())
+                } else if src.is_empty() {
+                    Ok(sx::Word { units: vec![], location: Location::dummy("") })
+                } else {
+                    parse_probe_arg(src)
+                };
+                let w = match parsed {
+                    Err(e) => {
+                        d.parse = Some(e);
+                        return;
                     }
-                    let mut env2 = env.clone();
-                    let r = {
-                        let mut ienv = InitialEnv::new(&mut env2);
-                        w.expand(&mut ienv).now_or_never()
-                    };
-                    d.expect = match r {
-                        None => None,
-                        Some(Err(e)) => Some(Err(error_class(&e))),
-                        Some(Ok(phrase)) => {
+                    Ok(w) => w,
+                };
+                let got = from_word(&w).map(|w| word_string(&w)).unwrap_or_else(|| "unsupported".into());
+                if &got != want {
+                    d.parse = Some(got.replace(' ', "_"));
+                }
+                let r = {
+                    let mut ienv = InitialEnv::new(&mut env2);
+                    w.expand(&mut ienv).now_or_never()
+                };
+                match r {
+                    None => {
+                        d.expect = None;
+                        return;
+                    }
+                    Some(Err(e)) => {
+                        d.expect = Some(Err(error_class(&e)));
+                        return;
+                    }
+                    Some(Ok(phrase)) => {
+                        let fs: Vec<Vec<AttrChar>> = phrase.into_iter().collect();
+                        if !fs.iter().all(|f| strip_api_ok(f)) {
+                            d.parse = Some("strip-api".into());
+                        }
+                        if matches!(ctx2.as_str(), "asg" | "exp" | "here") {
+                            fields.push(unquote(&oracle_join(&fs, &env2)));
+                        } else {
                             let ifs_text = env2.variables.get_scalar(IFS).map(|s| s.to_string());
                             let ifs = ifs_text.as_deref().map(Ifs::new).unwrap_or_default();
-                            let mut fields = vec![];
-                            for f in phrase {
-                                for g in spec_split(&f, &ifs) {
+                            for f in &fs {
+                                for g in spec_split(f, &ifs) {
                                     fields.push(unquote(&g));
                                 }
                             }
-                            Some(Ok(fields))
                         }
-                    };
+                    }
                 }
             }
+            d.expect = Some(Ok(fields));
         },
-        |env, _| show_vars(env),
+        |env, _| (show_vars(env), env.variables.get("v").and_then(|v| v.value.clone())),
     );
-    let vars = vars.unwrap_or_else(|| "?".into());
     if outcome.stuck {
         return ("TIMEOUT".into(), "FAIL:stuck".into());
     }
+    let (vars, v_after) = fin.unwrap_or_else(|| ("?".into(), None));
     let d = direct.borrow();
     let out = outcome.stdout_str();
-    let observed: Result<Vec<String>, ()> = match out.lines().next() {
-        Some(line) if outcome.exit_status == st.status && out.lines().count() == 1 => {
-            let body = line.split_once(':').map(|x| x.1).unwrap_or("");
-            if body.is_empty() {
-                Ok(vec![])
-            } else {
-                Ok(body.split(',').map(|h| dec_str(h).unwrap_or_else(|| "?".into())).collect())
-            }
+    let failed = outcome.exit_status == 2;
+    let probe_fields = |line: &str| -> Vec<String> {
+        let body = line.split_once(':').map(|x| x.1).unwrap_or("");
+        if body.is_empty() {
+            vec![]
+        } else {
+            body.split(',').map(|h| dec_str(h).unwrap_or_else(|| "?".into())).collect()
         }
-        _ => Err(()),
+    };
+    let observed: Result<Vec<String>, ()> = if failed {
+        Err(())
+    } else {
+        match ctx.as_str() {
+            "arg" if out.lines().count() == 1 => Ok(probe_fields(out.lines().next().unwrap())),
+            "for" => Ok(out.lines().flat_map(|l| probe_fields(l)).collect()),
+            "arr" => match &v_after {
+                Some(Value::Array(a)) => Ok(a.clone()),
+                _ => Err(()),
+            },
+            "asg" | "exp" => match &v_after {
+                Some(Value::Scalar(s)) => Ok(vec![s.clone()]),
+                _ => Err(()),
+            },
+            "here" => match out.strip_suffix('\n') {
+                Some(s) => Ok(vec![s.to_string()]),
+                None => Err(()),
+            },
+            _ => Err(()),
+        }
     };
     let mut oracle = vec![];
     if let Some(p) = &d.parse {
@@ -716,7 +907,7 @@ fn run_w(state_toks: &[&str], word_text: &str) -> (String, String) {
         }
         Err(()) => {
             let class = match &d.expect {
-                Some(Err(c)) if outcome.exit_status != 0 && out.is_empty() => c.clone(),
+                Some(Err(c)) if failed && out.is_empty() => c.clone(),
                 _ => {
                     oracle.push(format!("shell-failed:status={}:out={}", outcome.exit_status, enc_str(&out)));
                     "?".into()
@@ -727,6 +918,39 @@ fn run_w(state_toks: &[&str], word_text: &str) -> (String, String) {
     };
     let oracle = if oracle.is_empty() { "ok".to_string() } else { format!("FAIL:{}", oracle.join(";")) };
     (format!("{obs} v={vars}"), oracle)
+}
+
+/// `P [portable=1] | <hex of what follows "${">` : the real lexer on `probe ${<src>`
+fn run_p(state_toks: &[&str], hex: &str) -> (String, String) {
+    let (Some(st), Some(src)) = (parse_state(state_toks), dec_str(hex.trim())) else {
+        return ("bad-case".into(), "-".into());
+    };
+    let code = format!("probe ${{{src}");
+    let mut lexer = yash_syntax::parser::lex::Lexer::with_code(&code);
+    let mut mode = yash_env::parser::Mode::default();
+    mode.portable = st.portable;
+    lexer.set_mode(mode);
+    let mut parser = yash_syntax::parser::Parser::new(&mut lexer);
+    let r = parser.simple_command().now_or_never();
+    use yash_syntax::parser::{ErrorCause as PCause, Rec, SyntaxError as SE};
+    let obs = match r {
+        None => "pending".to_string(),
+        Some(Ok(Rec::Parsed(Some(cmd)))) if cmd.words.len() == 2 => match from_word(&cmd.words[1].0) {
+            Some(w) => format!("ok:{}", word_string(&w)),
+            None => "ok:unsupported".into(),
+        },
+        Some(Ok(_)) => "ok:other".into(),
+        Some(Err(e)) => match e.cause {
+            PCause::Syntax(SE::EmptyParam) => "err:EmptyParam".into(),
+            PCause::Syntax(SE::InvalidParam) => "err:InvalidParam".into(),
+            PCause::Syntax(SE::UnclosedParam { .. }) => "err:UnclosedParam".into(),
+            PCause::Syntax(SE::MultipleModifier) => "err:MultipleModifier".into(),
+            PCause::Syntax(SE::InvalidModifier) => "err:InvalidModifier".into(),
+            PCause::Syntax(SE::NonPortableParamModifier) => "err:NonPortableParamModifier".into(),
+            _ => "err:other".into(),
+        },
+    };
+    (obs, "-".into())
 }
 
 /// `read`'s input processing and XCU `read` assignment, for the oracle
@@ -808,11 +1032,11 @@ fn run_r(state_toks: &[&str], input_hex: &str) -> (String, String) {
             }
         },
         move |env, _| {
-            let vals: Vec<String> = names2
+            let vals: Vec<Option<String>> = names2
                 .iter()
                 .map(|n| match env.variables.get(n.as_str()).and_then(|v| v.value.as_ref()) {
-                    Some(Value::Scalar(s)) => s.clone(),
-                    _ => "\u{1}".into(),
+                    Some(Value::Scalar(s)) => Some(s.clone()),
+                    _ => None,
                 })
                 .collect();
             let ifs = env.variables.get_scalar(IFS).map(|s| s.to_string());
@@ -825,17 +1049,32 @@ fn run_r(state_toks: &[&str], input_hex: &str) -> (String, String) {
     let Some((vals, ifs_text)) = res else {
         return ("no-result".into(), "FAIL:no-result".into());
     };
-    let show = |st: i32, vals: &[String]| {
+    let show = |st: i32, vals: &[Option<String>]| {
         format!(
             "st={} v={}",
             st,
-            names.iter().zip(vals).map(|(n, v)| format!("{}:{}", n, enc_str(v))).collect::<Vec<_>>().join(",")
+            names
+                .iter()
+                .zip(vals)
+                .map(|(n, v)| format!("{}:{}", n, v.as_ref().map(|v| enc_str(v)).unwrap_or_else(|| "U".into())))
+                .collect::<Vec<_>>()
+                .join(",")
         )
     };
     let obs = show(outcome.exit_status, &vals);
     let ifs = ifs_text.as_deref().map(Ifs::new).unwrap_or_default();
     let (found, exp) = oracle_read(&input, st.raw, &ifs, st.n);
-    let expected = show(if found { 0 } else { 1 }, &exp);
+    // a read-only target keeps its value and makes the exit status 2
+    let ro_value = |n: &String| -> Option<Option<String>> {
+        st.vars.iter().find(|(m, ro, _)| m == n && *ro).map(|(_, _, v)| match v {
+            Some(Value::Scalar(s)) => Some(s.clone()),
+            _ => None,
+        })
+    };
+    let any_ro = names.iter().any(|n| ro_value(n).is_some());
+    let exp: Vec<Option<String>> =
+        names.iter().zip(exp).map(|(n, v)| ro_value(n).unwrap_or(Some(v))).collect();
+    let expected = show(if any_ro { 2 } else if found { 0 } else { 1 }, &exp);
     let oracle = if expected == obs { "ok".to_string() } else { format!("FAIL:read:expected:{}", expected.replace(' ', "_")) };
     (obs, oracle)
 }
@@ -866,6 +1105,7 @@ fn run_case(case: &str) -> (String, String) {
     match toks.split_first() {
         Some((&"W", st)) => run_w(st, r.trim()),
         Some((&"R", st)) => run_r(st, r.trim()),
+        Some((&"P", st)) => run_p(st, r.trim()),
         _ => ("bad-case".into(), "-".into()),
     }
 }
